@@ -25,8 +25,14 @@ class Budget(BaseException):
     pass
 
 
+_ARMED = [False]
+
+
 def _alarm(signum, frame):
-    raise Budget()
+    # a timer that expires inside one long C call (a huge allocation) is delivered only when that call returns, possibly after the
+    # guarded region has been left: it must not raise there
+    if _ARMED[0]:
+        raise Budget()
 
 
 BUDGET_S = 2.0           # CPU seconds of this process (user + system): independent of how loaded the machine is
@@ -40,9 +46,11 @@ def with_budget(f, scale=1):
     signal.signal(signal.SIGALRM, _alarm)
     signal.setitimer(signal.ITIMER_PROF, BUDGET_S * scale)
     signal.setitimer(signal.ITIMER_REAL, WALL_S * scale)
+    _ARMED[0] = True
     try:
         return f()
     finally:
+        _ARMED[0] = False
         signal.setitimer(signal.ITIMER_PROF, 0)
         signal.setitimer(signal.ITIMER_REAL, 0)
 
